@@ -3,8 +3,8 @@
    instruction length to the PC (modulo 2^32) unless the body wrote the PC; a raised exception goes to its entry (C11).
    Statements only (proofs in Proofs/StepProofs.v). *)
 From Coq Require Import ZArith Bool List.
-From ArmV Require Import Lib.PyZ Lib.Monad Lib.Machine Spec.Pseudocode Spec.Arch Spec.MachineView Spec.Branches Spec.StepFrame
-  Proofs.StateLemmas Proofs.CondProofs Proofs.ExcProofs Proofs.StepProofs.
+From ArmV Require Import Lib.PyZ Lib.Monad Lib.Machine Spec.Pseudocode Spec.Arch Spec.MachineView Spec.Branches Spec.StepFrame Spec.OperandSpec
+  Proofs.StateLemmas Proofs.CondProofs Proofs.GuardProofs Proofs.ExcProofs Proofs.DPLemmas Proofs.BranchProofs Proofs.StepProofs Proofs.StepInstancesBranch.
 From Gen Require Import enums opsyn core exec conc decoders step.
 Import ListNotations.
 Open Scope Z_scope.
@@ -26,3 +26,53 @@ Theorem C04_step_completes cfg s w s1 cls op s2 :
   ArmV6_emulate_cycle cfg s = Ok tt (AdvancePC (it_step_after s1 s2)).
 Proof. exact (step_completes cfg s w s1 cls op s2). Qed.
 Print Assumptions C04_step_completes.
+
+(* a body that wrote the PC (a taken branch): the sequential advance is suppressed *)
+Theorem C04_step_pc_written cfg s w s1 cls op s2 :
+  ArmV6_fetch_instruction cfg s = Ok w s1 ->
+  ArmV6_decode_instruction w s1 = Ok (Some cls) s1 ->
+  from_bitarray_dispatch cfg cls w s1 = Ok (Some op) s1 ->
+  execute_dispatch cfg op (begin_instr s1 op) = Ok tt s2 ->
+  ictx cfg s2 -> getl (changed s2) 15 = 1 ->
+  ArmV6_emulate_cycle cfg s = Ok tt (it_step_after s1 s2).
+Proof. exact (step_pc_written cfg s w s1 cls op s2). Qed.
+Print Assumptions C04_step_pc_written.
+
+(* B<c> <label> (ARM, A1) end to end, for every word of the encoding (cond != 1111, bits 27:24 = 1010) and every state:
+   the step is B_sem (BranchWritePC of PC_read + SignExtend(imm24:'00')), and in ARM state the new PC is that target, word-aligned *)
+Theorem C04_b_a1_step cfg s w s1 :
+  ArmV6_fetch_instruction cfg s = Ok w s1 ->
+  0 <= w < 2 ^ 32 -> is_b_a1 w -> iset_of s1 = 0 -> ictx cfg s1 -> cond_holds s1 ->
+  let op := (code_B, [w; off_A1 w]) in
+  ArmV6_emulate_cycle cfg s =
+  Ok tt (it_step_after s1 (B_sem (cfg_jazelle_accepts_execution cfg) (begin_instr s1 op) (off_A1 w))).
+Proof. exact (b_a1_step cfg s w s1). Qed.
+Print Assumptions C04_b_a1_step.
+Theorem C04_b_a1_pc cfg s1 op imm : ictx cfg s1 -> iset_of s1 = 0 ->
+  pc_of (it_step_after s1 (B_sem (cfg_jazelle_accepts_execution cfg) (begin_instr s1 op) imm)) =
+  clear_low (add32 (rget s1 15) imm) 2.
+Proof. exact (b_a1_pc cfg s1 op imm). Qed.
+Print Assumptions C04_b_a1_pc.
+
+(* B <label> (Thumb, 16-bit T2: 11100 imm11), outside an IT block or as its last instruction *)
+Theorem C04_b_t2_step cfg s w s1 :
+  ArmV6_fetch_instruction cfg s = Ok w s1 ->
+  0 <= w < 2 ^ 16 -> is_b_t2 w -> iset_of s1 = 1 -> opcode_len s1 = 16 -> it_unpredictable s1 = false ->
+  ictx cfg s1 -> cond_holds s1 ->
+  let op := (code_B, [w; off_T2 w]) in
+  ArmV6_emulate_cycle cfg s =
+  Ok tt (it_step_after s1 (B_sem (cfg_jazelle_accepts_execution cfg) (begin_instr s1 op) (off_T2 w))).
+Proof. exact (b_t2_step cfg s w s1). Qed.
+Print Assumptions C04_b_t2_step.
+
+(* B<c> <label> (Thumb, 16-bit T1: 1101 cond imm8, cond != 111x), outside IT blocks; the condition is the instruction's own field
+   (C05_current_cond) *)
+Theorem C04_b_t1_step cfg s w s1 :
+  ArmV6_fetch_instruction cfg s = Ok w s1 ->
+  0 <= w < 2 ^ 16 -> is_b_t1 w -> iset_of s1 = 1 -> opcode_len s1 = 16 -> in_it s1 = false ->
+  ictx cfg s1 -> cond_holds s1 ->
+  let op := (code_B, [w; SInt (bits w 7 0 * 2) 9]) in
+  ArmV6_emulate_cycle cfg s =
+  Ok tt (it_step_after s1 (B_sem (cfg_jazelle_accepts_execution cfg) (begin_instr s1 op) (off_T1 w))).
+Proof. exact (b_t1_step cfg s w s1). Qed.
+Print Assumptions C04_b_t1_step.
